@@ -272,7 +272,7 @@ impl BuilderArea {
                     _ => "bad-op".into(),
                 }
             }
-            _ => return None,
+            _ => return self.red_step(ws, cx),
         };
         Some(ans)
     }
